@@ -40,3 +40,73 @@ Proof.
     rewrite <- (Forall2_len _ _ _ HF). now rewrite map_length.
   - eapply wf_nodup_keys. exact Hwt.
 Qed.
+
+(* ---- two entries never share a path in a merklized dataset ---- *)
+Lemma part_eqb_spec : forall a b, part_eqb_ a b = true <-> a = b.
+Proof.
+  intros [x|x] [y|y]; simpl; split; intros H; try discriminate.
+  - apply String.eqb_eq in H. now subst.
+  - inversion H; subst. apply String.eqb_refl.
+  - apply Z.eqb_eq in H. now subst.
+  - inversion H; subst. apply Z.eqb_refl.
+Qed.
+
+Lemma path_eqb_spec : forall a b, path_eqb a b = true <-> a = b.
+Proof.
+  unfold path_eqb. induction a as [|x a IH]; intros [|y b]; simpl; split; intros H;
+    try discriminate; try reflexivity.
+  - apply andb_true_iff in H. destruct H as (H1 & H2).
+    apply part_eqb_spec in H1. apply IH in H2. now subst.
+  - inversion H; subst. apply andb_true_iff. split; [now apply part_eqb_spec|now apply IH].
+Qed.
+
+Lemma distinct_paths_nodup : forall l, distinct_paths l = true <-> NoDup l.
+Proof.
+  induction l as [|p t IH]; simpl; split; intros H; try reflexivity; try constructor.
+  - apply andb_true_iff in H. destruct H as (H1 & _). intros Hin.
+    apply negb_true_iff in H1.
+    assert (existsb (path_eqb p) t = true).
+    { apply existsb_exists. exists p. split; [assumption|now apply path_eqb_spec]. }
+    congruence.
+  - apply andb_true_iff in H. destruct H as (_ & H2). now apply IH.
+  - inversion H as [|? ? Hn Hnd]; subst. apply andb_true_iff. split; [|now apply IH].
+    apply negb_true_iff. destruct (existsb (path_eqb p) t) eqn:E; [|reflexivity].
+    apply existsb_exists in E. destruct E as (x & Hx & He). apply path_eqb_spec in He. now subst.
+Qed.
+
+Lemma nodup_map_transfer : forall {A B C} (f : A -> B) (g : A -> C) l,
+  NoDup (map f l) ->
+  (forall x y, In x l -> In y l -> g x = g y -> f x = f y) ->
+  NoDup (map g l).
+Proof.
+  intros A B C f g l. induction l as [|a l IH]; intros Hnd Hfg; simpl; [constructor|].
+  inversion Hnd as [|? ? Hn Hnd']; subst. constructor.
+  - intros Hin. apply in_map_iff in Hin. destruct Hin as (y & Hy & Hyl).
+    apply Hn. apply in_map_iff. exists y. split; [|assumption].
+    symmetry. apply Hfg; [now left|now right|now symmetry].
+  - apply IH; [assumption|]. intros x y Hx Hy. apply Hfg; now right.
+Qed.
+
+Theorem leaves_distinct_paths : forall T Hd F cfg ds m,
+  merklize_ds T Hd F cfg None ds = Ok m ->
+  exists es,
+    entries_from_rdf F (h_prime (hasher_or Hd cfg)) ds = Ok es /\
+    NoDup (map e_key es) /\ distinct_paths (map e_key es) = true.
+Proof.
+  intros T Hd F cfg ds m H. unfold merklize_ds, entries_from_rdf_h in H. simpl in H.
+  apply ThBase.bind_ok in H. destruct H as (res_ & Hes & H).
+  apply ThBase.bind_ok in Hes. destruct Hes as (es & Hes & Hw). inversion Hw; subst res_; clear Hw.
+  set (h := hasher_or Hd cfg) in *.
+  exists es. split; [exact Hes|].
+  destruct (merklize_from_entries_wf T Hd h _ m (wrap_entry_uses h es) H) as (Hwf & Hh & Hsnd).
+  assert (Hnd : NoDup (map e_key es)).
+  { assert (Hg : map (fun x : Z * rdf_entry => p_parts (re_key (snd x))) (mz_entries m) = map e_key es).
+    { rewrite <- (map_map snd (fun e => p_parts (re_key e))), Hsnd, map_map. reflexivity. }
+    rewrite <- Hg.
+    apply (nodup_map_transfer fst (fun x => p_parts (re_key (snd x)))); [apply (wf_nodup T m Hwf)|].
+    intros [k1 e1] [k2 e2] H1 H2 Heq. simpl in *.
+    destruct (wf_member T m Hwf k1 e1 H1) as (_ & Hk1 & _).
+    destruct (wf_member T m Hwf k2 e2 H2) as (_ & Hk2 & _).
+    rewrite Heq in Hk1. rewrite Hk1 in Hk2. now inversion Hk2. }
+  split; [exact Hnd|now apply distinct_paths_nodup].
+Qed.
